@@ -68,7 +68,8 @@ CHECKS = {
             "+ numerical correspondence over EVERY length 1..256 (1..1024 thorough) against float64 direct evaluation",
             "Theorems fftconvolve_eq_lconv, fftconvolve_size_independent, lconv_get/length, correlate_lags (Nat and "
             "integer-lag forms), correlate_eq_lconv, irfft_default_len (default inverse length = N iff N even), "
-            "ifftLen_roundtrip, padTo_*.",
+            "ifftLen_roundtrip, padTo_*. Source tie (Tie/FftLengths): fftconv_out_len_is_model, ifft_len_is_model, "
+            "correlate_is_model (TimeSeries.correlate re-translated: one convolution with the reversed operand for every pair).",
             "The transform pair (rocket-fft) enters only through the circular-convolution identity it implements; DFT "
             "equality, Parseval and the round trip are validated numerically within an explicit float32 bound, not "
             "proved.", "§5 C12"),
@@ -77,7 +78,9 @@ CHECKS = {
             "correspondence of every response value + normalised-correlation oracle + the zero-scale guard / standardisation arithmetic of estimate_zscore re-translated from core/stats.py (Tie/StatsLane)",
             "Theorems response_is_correlation (no reversal/misalignment left over), prepTemplate_get, argmaxFirst_spec, "
             "peakOf_spec (first row-major maximum), correlation_add_const / correlation_scale / normTemplate_sum_zero "
-            "(affine invariance given zero-mean templates), correlation_sq_le (Cauchy–Schwarz bound).",
+            "(affine invariance given zero-mean templates), correlation_sq_le (Cauchy–Schwarz bound). Source tie: Tie/TemplatePrep "
+            "(prepared_is_model), Tie/MfCompute (compute_is_max: MatchedFilter._compute re-translated), Tie/OnPulse (on_pulse_boxcar: "
+            "Template.get_on_pulse re-translated), Tie/StatsLane.",
             "Template normalisation constants (mean, root sum of squares) are parameters computed outside the model; "
             "the FFT pair enters through the circular-convolution identity; z-scores are C15's; float32 FFT error is "
             "bounded numerically, not proved.", "§5 C13"),
